@@ -1030,6 +1030,10 @@ struct Interp
     // ---------------- the mode rule of the language (docs/LANGUAGE.md)
     {
       auto is_owner_spec = [](const std::string& sp) { return sp.rfind("ownT:", 0) == 0 || sp.rfind("ownK:", 0) == 0 || sp.rfind("ownG:", 0) == 0; };
+      // the budget also stops the growth of slot lists: beyond it nothing is connected any more
+      if (((op == "conn" || op == "connf" || op == "connmv" || op == "connfmv" || op == "connfn" || op == "connffn") && N(3)) &&
+          steps > maxsteps)
+        return "budget";
       if ((op == "conn" || op == "connf" || op == "connmv" || op == "connfmv") && N(3) && owners)
       {
         SlotObj* sl = get(S, idx(w[3]));
